@@ -1,5 +1,7 @@
 mod enc;
+mod abidump;
 mod alloc_count;
+mod generated;
 mod elfbuild;
 mod gen;
 mod gen2;
@@ -67,6 +69,11 @@ fn main() {
                     out.flush().unwrap();
                 }
             }
+        }
+        "dump-abi" => {
+            let seed: u64 = args.get(2).and_then(|s| s.parse().ok()).unwrap_or(1);
+            let thorough = args.get(3).map(|s| s == "thorough").unwrap_or(false);
+            abidump::dump(seed, thorough);
         }
         // gen <stream> <seed> <n> <quick|thorough>  ->  `req TAB ann` lines
         "gen" => {
